@@ -357,3 +357,40 @@ pub proof fn lemma_alt_reads_two_sided<'s>(bs: BoundSet, tail: Seq<char>, i: &'s
         _ => {},
     }
 }
+// the printed range, read from the left: first alternative, then `||` and the rest (Display builds it the other way round, alts_text)
+pub open spec fn range_text_r(s: Seq<BoundSet>) -> Seq<char>
+    decreases s.len()
+{
+    if s.len() == 0 { Seq::<char>::empty() } else if s.len() == 1 { bs_text(s[0]) } else { bs_text(s[0]) + ("||"@ + range_text_r(s.drop_first())) }
+}
+pub proof fn lemma_alts_text_step(s: Seq<BoundSet>, k: int)
+    requires 1 <= k <= s.len(),
+    ensures alts_text(s, k) == range_text_r(s.take(k)),
+    decreases k,
+{
+    if k == 1 {
+        assert(alts_text(s, 0) =~= Seq::<char>::empty());
+        assert(s.take(1)[0] == s[0]);
+        assert(alts_text(s, 1) =~= bs_text(s[0]));
+    } else {
+        lemma_alts_text_step(s, k - 1);
+        lemma_range_text_push(s.take(k - 1), s[k - 1]);
+        assert(s.take(k) =~= s.take(k - 1).push(s[k - 1]));
+    }
+}
+pub proof fn lemma_range_text_push(s: Seq<BoundSet>, b: BoundSet)
+    requires s.len() >= 1,
+    ensures range_text_r(s.push(b)) == range_text_r(s) + "||"@ + bs_text(b),
+    decreases s.len(),
+{
+    let q = s.push(b);
+    if s.len() == 1 {
+        assert(q.drop_first() =~= seq![b]);
+        assert(range_text_r(q.drop_first()) == bs_text(b)) by { assert(q.drop_first()[0] == b); }
+        assert(range_text_r(q) =~= range_text_r(s) + "||"@ + bs_text(b));
+    } else {
+        assert(q.drop_first() =~= s.drop_first().push(b));
+        lemma_range_text_push(s.drop_first(), b);
+        assert(range_text_r(q) =~= range_text_r(s) + "||"@ + bs_text(b));
+    }
+}
